@@ -1622,5 +1622,8 @@ func (se *SpecEnv) freshFrom() Term {
 	if se.freshBase != nil {
 		return *se.freshBase
 	}
+	if se.st != nil && se.st.base != nil {
+		return se.st.base.next // `opt lockhavoc`: fresh = allocated by this call after the lock was taken
+	}
 	return se.e.next0
 }
